@@ -64,6 +64,13 @@ pub struct FindScenario {
     /// byte that ends a record in the sink (for the mutator's instants)
     pub record_delim: u8,
     pub note: String,
+    /// options no statement mentions and that must not change what the statements describe:
+    /// `extras_pre` go first on the command line (-O1..3), `extras_global` right after the
+    /// starting points (-noleaf, -xdev, -mount, -regextype T)
+    #[serde(default)]
+    pub extras_pre: Vec<String>,
+    #[serde(default)]
+    pub extras_global: Vec<String>,
 }
 
 impl FindScenario {
@@ -79,6 +86,52 @@ impl FindScenario {
             env: None,
             record_delim: 0,
             note: String::new(),
+            extras_pre: vec![],
+            extras_global: vec![],
+        }
+    }
+
+    /// `argv` with the neutral extras put where find expects them.
+    pub fn full_argv(&self) -> Vec<String> {
+        if self.extras_pre.is_empty() && self.extras_global.is_empty() {
+            return self.argv.clone();
+        }
+        let mut out: Vec<String> = self.extras_pre.clone();
+        // leading flags, then starting points, exactly as find's own parse_args reads them
+        let mut i = 0;
+        while i < self.argv.len() && matches!(self.argv[i].as_str(), "-H" | "-L" | "-P" | "-O0" | "-O1" | "-O2" | "-O3") {
+            out.push(self.argv[i].clone());
+            i += 1;
+        }
+        while i < self.argv.len() {
+            let a = self.argv[i].as_str();
+            if (a.starts_with('-') && a != "-") || a == "!" || a == "(" {
+                break;
+            }
+            out.push(self.argv[i].clone());
+            i += 1;
+        }
+        out.extend(self.extras_global.iter().cloned());
+        out.extend(self.argv[i..].iter().cloned());
+        out
+    }
+
+    /// Draw the neutral extras. `xdev`: -xdev/-mount may be used (not where links loop or
+    /// directories are unreadable: walkdir's same_file_system stats through links and turns
+    /// ELOOP/EACCES into walk errors, which no claimed statement speaks about).
+    pub fn gen_extras(&mut self, rng: &mut crate::rng::Rng, xdev: bool) {
+        if rng.chance(1, 8) {
+            self.extras_pre.push(rng.pick(&["-O1", "-O2", "-O3", "-O0"]).to_string());
+        }
+        if rng.chance(1, 8) {
+            self.extras_global.push("-noleaf".into());
+        }
+        if rng.chance(1, 8) && xdev {
+            self.extras_global.push(rng.pick(&["-xdev", "-mount"]).to_string());
+        }
+        if rng.chance(1, 12) {
+            self.extras_global.push("-regextype".into());
+            self.extras_global.push(rng.pick(&["posix-extended", "emacs", "grep"]).to_string());
         }
     }
 }
@@ -271,7 +324,7 @@ pub fn run_find_prebuilt(sc: &FindScenario, ctx: &mut Ctx, root: PathBuf) -> Fin
         })),
     };
     let mut argv = vec!["find".to_string()];
-    argv.extend(sc.argv.iter().cloned());
+    argv.extend(sc.full_argv());
     let (status, stderr) = ctx.run_guarded(Box::new(world), move || {
         let refs: Vec<&str> = argv.iter().map(|s| s.as_str()).collect();
         findutils::find::find_main(&refs, &deps)
